@@ -344,6 +344,14 @@ def replaceAll (pat : List Char) (to : List Char) : Nat → List Char → List C
 
 def placeholder (i : Nat) : List Char := ("{" ++ toString i ++ "}").toList
 
+/-- `macro_def`: the stored text — every parameter, in order, replaced as a whole word by its placeholder -/
+def macroStore (params : List (List Char)) (body : List Char) : List Char :=
+  (params.zipIdx).foldl (fun r (p, i) => replaceWord p (placeholder i) (r.length + 1) none r) body
+
+/-- `macro_use`: the expansion — every placeholder, in order, replaced by its argument (`str::replace`) -/
+def macroInst (args : List (List Char)) (stored : List Char) : List Char :=
+  (args.zipIdx).foldl (fun r (a, i) => replaceAll (placeholder i) a (r.length + 1) r) stored
+
 /-! ### the pinned special actions -/
 
 /-- (non-terminal, alternative, hash of the normalised action text) of every hand-modelled action;
@@ -517,7 +525,7 @@ def special (reparse : String → M Unit) (name : String) (alt : Nat) (kids : Li
     let params := match v 3 with | .list l => l.map strOf | _ => []
     let body := (tokOf (kids.getD 6 default)).text.toList
     let r0 := body.take (body.length - 2)
-    let r := (params.zipIdx).foldl (fun r (p, i) => replaceWord p.toList (placeholder i) (r.length + 1) none r) r0
+    let r := macroStore (params.map String.toList) r0
     modify fun s => { s with macros := insertAssoc s.macros name (String.ofList r) }
     pure .unit
   | "macro_use", 0 =>
@@ -528,7 +536,7 @@ def special (reparse : String → M Unit) (name : String) (alt : Nat) (kids : Li
     match s.macros.lookup l with
     | none => err start (start + l.utf8ByteSize) "Macro not defined"
     | some value =>
-      let r := (params.zipIdx).foldl (fun r (p, i) => replaceAll (placeholder i) p.toList (r.length + 1) r) value.toList
+      let r := macroInst (params.map String.toList) value.toList
       if s.nesting.contains l then err start stop "Recursive macros are not allowed" else
       -- set_source(start); lock_source()
       modify fun s => { s with nesting := l :: s.nesting,
